@@ -52,6 +52,7 @@ Proof. exact popen_reads_conserve. Qed.
 Print Assumptions C06_popen_reads_conserve.
 Theorem C06_popen_fresh : PInv pw0.
 Proof. exact pw0_inv. Qed.
+Print Assumptions C06_popen_fresh.
 Theorem C06_popen_eof_sticky : forall w s size ok w' s' s2 size2, popen_read w s size = (ok, REof, w', s') ->
   popen_read w' s2 size2 = (true, REof, w', s2).
 Proof. exact popen_eof_sticky. Qed.
